@@ -184,6 +184,20 @@ def handle : Handler
         match (List.range n).find? fun i => (List.range cols).any fun k => P.get i (l.getD i 0) + 1e-9 < P.get i k with
         | none => some "holds"
         | some i => some s!"fails label-not-most-probable row={i}") "bad-args"
+  | "c19.resolve", [layer, activation, loss, normalization, se, c] => some <| Option.getD (do
+      let unq := fun (t : String) => if t == "''" then "" else t.replace "~" " "
+      let loss := if loss == "_" then none else some (unq loss)
+      match resolveLayer (unq layer) (unq activation) loss (unq normalization) (← bool? se) (← c.toNat?) with
+      | .error e => some (showErr e)
+      | .ok (cfg, k) =>
+        let ns := match cfg.norm with | .left => "left" | .right => "right" | .both => "both" | .none => "none"
+        let as := match cfg.act with | .identity => "identity" | .relu => "relu" | .sigmoid => "sigmoid" | .softmax => "softmax"
+        let ks := match k with | none => "_" | some .crossEntropy => "ce" | some .binaryCrossEntropy => "bce"
+        some s!"ok {ns} {showBool cfg.selfEmb} {as} {ks}") "bad-args"
+  | "c19.check_output", [c, y] => some <| Option.getD (do
+      match checkOutput (← c.toNat?) (← natList? y) with
+      | .ok _ => some "ok"
+      | .error e => some (showErr e)) "bad-args"
   | "c19.sample", [n, ip, ix, ch] => some <| Option.getD (do
       let n ← n.toNat?
       some ("ok " ++ showListList (sampleRows (← natList? ip) (← natList? ix) n (← rows? n ch)))) "bad-args"
